@@ -88,6 +88,43 @@ def run_one(sid, tier, in_repo=False, props=None):
     return res
 
 
+def vet(src, name):
+    """import a red-team deliverable (dir with patch.diff, demo.py, meta.json) after confirming:
+    patch applies, baseline suite still passes, demo passes clean and fails mutated"""
+    meta = json.load(open(os.path.join(src, "meta.json")))
+    tmp = tempfile.mkdtemp(prefix="verif-vet-")
+    try:
+        tree = os.path.join(tmp, "repo")
+        copy_repo(tree)
+        a = sh(["git", "apply", "--unsafe-paths", "--directory=" + tree, os.path.join(src, "patch.diff")], cwd="/")
+        if a.returncode:
+            a = sh(["patch", "-p1", "-d", tree, "-i", os.path.join(src, "patch.diff")])
+        if a.returncode:
+            print(name, "REJECTED: patch does not apply", a.stderr[-300:])
+            return False
+        clean_rc, _ = run_demo("/repo", os.path.join(src, "demo.py"))
+        mut_rc, mut_out = run_demo(tree, os.path.join(src, "demo.py"))
+        b = sh([os.path.join(HERE, "tools", "run_baseline.py"), tree])
+        tail = b.stdout.strip().splitlines()[-1] if b.stdout.strip() else b.stderr[-200:]
+        ok = clean_rc == 0 and mut_rc != 0 and b.returncode == 0
+        print(name, "OK" if ok else "REJECTED", "demo clean rc=%s mutated rc=%s; baseline: %s" % (clean_rc, mut_rc, tail))
+        if not ok:
+            return False
+        dst = os.path.join(SEEDED, name)
+        os.makedirs(dst, exist_ok=True)
+        for f in ("patch.diff", "demo.py"):
+            shutil.copy(os.path.join(src, f), os.path.join(dst, f))
+        meta["verified"] = dict(demo_clean_rc=clean_rc, demo_mutated_rc=mut_rc, baseline=tail,
+                                ran="tools/seeded.py vet: git apply on a scratch copy of /repo; "
+                                    "tools/run_baseline.py <copy>; demo.py with PYTHONPATH=<copy>/src and /repo/src",
+                                mutated_demo_output=mut_out[-300:])
+        with open(os.path.join(dst, "meta.json"), "w") as f:
+            json.dump(meta, f, indent=1)
+        return True
+    finally:
+        shutil.rmtree(tmp, ignore_errors=True)
+
+
 def summary():
     rows = []
     for sid in sorted(os.listdir(SEEDED)):
@@ -114,6 +151,8 @@ def main():
     if not a or a[0] == "summary":
         print("\n".join(summary()))
         return
+    if a[0] == "vet":
+        sys.exit(0 if vet(a[1], a[2]) else 1)
     if a[0] == "run":
         tier = "quick"
         in_repo = "--in-repo" in a
